@@ -372,7 +372,7 @@ class Ctx:
             if not a["ok"]:
                 self.proof["broken"].extend(a["bad"] or ["audit found no theorems"])
             if self.thorough():
-                rc, out2 = _run(["lake", "env", "leanchecker", "MudProof.Properties." + pid], cwd=LEAN,
+                rc, out2 = _run(["lake", "env", "leanchecker", "MudProof.Properties." + pid, "MudProof.StepThm"], cwd=LEAN,
                                 timeout=7200)
                 self.extra["leanchecker_rc"] = rc
                 if rc != 0:
